@@ -356,3 +356,56 @@ func topLib(names []string) string {
 	}
 	return "(harness)"
 }
+
+// sanRefCheck: every pool buffer a session still references (queued segments,
+// FEC shards) must be owned according to the sanitizer. A reference to a
+// buffer that has been recycled is a use-after-recycle waiting to happen (the
+// next ACK recycles it again, the next flush transmits somebody else's bytes).
+func sanRefCheck(s *UDPSession) string {
+	if !sanEnabled.Load() {
+		return ""
+	}
+	s.mu.Lock()
+	defer s.mu.Unlock()
+	var bufs [][]byte
+	var where []string
+	k := s.kcp
+	for seg := range k.snd_queue.ForEach {
+		if seg.data != nil {
+			bufs, where = append(bufs, seg.data), append(where, "send queue")
+		}
+	}
+	for seg := range k.snd_buf.ForEach {
+		if seg.data != nil {
+			bufs, where = append(bufs, seg.data), append(where, "send buffer")
+		}
+	}
+	for seg := range k.rcv_queue.ForEach {
+		if seg.data != nil {
+			bufs, where = append(bufs, seg.data), append(where, "delivery queue")
+		}
+	}
+	for i := range k.rcv_buf.segments {
+		if d := k.rcv_buf.segments[i].data; d != nil {
+			bufs, where = append(bufs, d), append(where, "receive heap")
+		}
+	}
+	if dec := s.fecDecoder; dec != nil {
+		for _, sh := range dec.shardSet {
+			for _, pkt := range sh.elements {
+				bufs, where = append(bufs, pkt), append(where, "FEC shard set")
+			}
+		}
+	}
+	san.mu.Lock()
+	defer san.mu.Unlock()
+	for i, b := range bufs {
+		if cap(b) != mtuLimit {
+			continue
+		}
+		if e := san.entries[unsafe.SliceData(b[:cap(b)])]; e != nil && e.state == sanQuarantined {
+			return fmt.Sprintf("a segment in the %s still references a buffer that was recycled by %s", where[i], topLib(frameNames(e.putPC[:])))
+		}
+	}
+	return ""
+}
